@@ -725,6 +725,21 @@ func ruleCTORSHAPE(c *Ctx, r *Report) {
 					}
 				}
 			}
+			if !pat {
+				// a disjunction written in place (`p.Op == Wild || p.Op == Regexp`): the block is entered over
+				// several edges, each of which establishes one alternative
+				alts := c.blockAlternatives(fs.st.Block())
+				if len(alts) > 1 {
+					all := true
+					for _, alt := range alts {
+						full := c.expand(append(append([]Atom(nil), callerAtoms...), alt...), nil)
+						if !subsetOf(c.possibleOps(full, "$2[0].(*expr.Expression).Op"), []string{"expr.Wild", "expr.Regexp"}) {
+							all = false
+						}
+					}
+					pat = all
+				}
+			}
 			if eq && pat {
 				r.ok(rule, key, c.instrPos(fs.st), "Equals with a Wild/Regexp operand becomes Like")
 			} else {
@@ -1728,4 +1743,21 @@ func (c *Ctx) leafClassifier() *ssa.Function {
 		}
 	}
 	return dec
+}
+
+// blockAlternatives: the facts that hold on entry to b, one set per incoming edge (the dominating facts of the
+// predecessor plus the condition of the edge taken); for a block with a single predecessor, its dominating facts.
+func (c *Ctx) blockAlternatives(b *ssa.BasicBlock) [][]Atom {
+	if len(b.Preds) <= 1 {
+		return [][]Atom{c.domAtoms(b)}
+	}
+	var out [][]Atom
+	for _, p := range b.Preds {
+		atoms := append([]Atom(nil), c.domAtoms(p)...)
+		if iff, ok := p.Instrs[len(p.Instrs)-1].(*ssa.If); ok && p.Succs[0] != p.Succs[1] {
+			atoms = append(atoms, c.atoms(iff.Cond, p.Succs[0] == b, nil)...)
+		}
+		out = append(out, atoms)
+	}
+	return out
 }
